@@ -204,6 +204,8 @@ func reproduced(f *interp.Finding, r *nativeResult) bool {
 		return strings.Contains(r.out, "ALLOC alloc-limit") || strings.Contains(r.out, "out of memory") || r.killed
 	case "hang":
 		return r.killed || strings.Contains(r.out, "stack overflow") || strings.Contains(r.out, "goroutine stack exceeds")
+	case "write":
+		return strings.Contains(r.out, "WRITE "+f.Label+":")
 	case "deadlock":
 		return r.killed || strings.Contains(r.out, "all goroutines are asleep")
 	}
@@ -475,7 +477,7 @@ func run() int {
 		rpath := filepath.Join(evDir, "replays", fmt.Sprintf("%s-%x.json", id, sum[:5]))
 		confirmed := false
 		how := ""
-		engineOnly := f.Kind == "write" || f.Kind == "maporder"
+		engineOnly := f.Kind == "maporder"
 		if *noNative {
 			confirmed, how = true, "native replay skipped (-nonative)"
 		} else if engineOnly {
